@@ -15,6 +15,13 @@ def groups(n, seed):
         pk = gen.random_params(rng, iteration_limit=int(rng.integers(0, 30)), collect_path=True,
                                penalty_update=[PenaltyUpdate.ObjectiveFilter, PenaltyUpdate.LagrangianFilter][i % 2])
         gs.append({"tag": "C12.filter", "runs": [{"prob": family_spec(i, rng), "params": pk}]})
+    # user-supplied starts outside the variable box: the first announced step starts from the transformed x0 itself
+    for i in range(max(4, n // 15)):
+        nv = int(rng.integers(2, 5))
+        ps = ("convex_qp", int(rng.integers(0, 2 ** 31)), nv, int(rng.integers(0, 2)),
+              {"var_kinds": [["boxed", "lower", "upper", "free"][(i + j) % 4] for j in range(nv)]})
+        pk = gen.random_params(rng, iteration_limit=20, collect_path=True)
+        gs.append({"tag": "C12.outside", "runs": [{"prob": ps, "params": pk, "x0_outside": [0.5, -0.25, 2.0][i % 3]}]})
     return gs
 
 
